@@ -269,14 +269,14 @@ Definition access_with_integer (index : num) (v : val) : res (option val) :=
       match index with
       | Int z =>
           if (z <? 0)%Z then Ok None
-          else Ok (Some (match nth_error items (Z.to_nat z) with Some x => x | None => VUnit end))
+          else Ok (Some (match nth_z items z with Some x => x | None => VUnit end))
       | Flt _ => Err E_unmodeled
       end
   | VChars cs =>
       match index with
       | Int z =>
           if (z <? 0)%Z then Ok None
-          else Ok (match nth_error cs (Z.to_nat z) with Some c => Some (VChar c) | None => None end)
+          else Ok (match nth_z cs z with Some c => Some (VChar c) | None => None end)
       | Flt _ => Err E_unmodeled
       end
   | VBytes _ | VSymList _ | VRange _ _ | VSlice _ _ | VConcat _ _ => Err E_unmodeled
